@@ -494,15 +494,8 @@ class FieldMap(dict):
         self.by_obj = defaultdict(set)
         self.keyed = defaultdict(set)  # object -> its "k:<constant key>" fields
 
-    def __getitem__(self, key):
-        o = key[0]
-        if o.alias_of is not None and key[1] != o.own:
-            key = (o.alias_of, key[1])
-        try:
-            return dict.__getitem__(self, key)
-        except KeyError:
-            return self.__missing__(key)
-
+    # (no __getitem__ override: existing keys take the fast path of dict; a version object's shared fields are entered
+    # under its own key as THE SAME set object as the original's -- sets are only ever updated in place)
     def __contains__(self, key):
         o = key[0]
         if o.alias_of is not None and key[1] != o.own:
@@ -510,6 +503,11 @@ class FieldMap(dict):
         return dict.__contains__(self, key)
 
     def __missing__(self, key):
+        o = key[0]
+        if o.alias_of is not None and key[1] != o.own:
+            v = self[(o.alias_of, key[1])]
+            dict.__setitem__(self, key, v)
+            return v
         v = ElemSet() if key[1] == "[]" else ProvSet() if (key[0].kind == "ext" and isinstance(key[1], str)) else set()
         dict.__setitem__(self, key, v)
         self.by_obj[key[0]].add(key[1])
@@ -662,6 +660,9 @@ class Analysis:
         self.used_inv = set()
         self._broken_seen = set()
         self._chain_ok = {}
+        self._ecache = {}
+        self.version = 0
+        self._reps = {}
         self.call_edges = defaultdict(set)
         self._edge_info = {}
         self.snapshots = set()
@@ -783,9 +784,11 @@ class Analysis:
         s |= new
         if len(s) != n0:
             self.changed = True
+            self.version += 1
         if type(s) is ElemSet and not self.pre_add and not new <= s.np:
             s.np |= new
             self.changed = True
+            self.version += 1
         elif type(s) is ProvSet:
             og = self.store_origin
             if og is None:
@@ -2202,12 +2205,26 @@ class Analysis:
 
     def elements(self, objs):
         out = set()
+        cache, ver = self._ecache, self.version
         for o in objs:
             if o.kind in ("SRC", "GS"):
                 out.add(o)
-            elif o.kind in ("NONE", "cls", "mod", "func", "bound"):
                 continue
-            elif o.kind == "glob":
+            if o.kind in ("NONE", "cls", "mod", "func", "bound"):
+                continue
+            hit = cache.get(o)
+            if hit is not None and hit[0] == ver:
+                out |= hit[1]
+                continue
+            r = self._elements1(o)
+            cache[o] = (self.version, r)  # (a pure read: valid until the next change of any points-to set)
+            out |= r
+        return out
+
+    def _elements1(self, o):
+        out = set()
+        if True:
+            if o.kind == "glob":
                 out |= self.glob_elements(o) | self.F[(o, "[]")]
                 for a in self.F.keyed_of(o):
                     out |= self.F[(o, a)]
@@ -2334,10 +2351,15 @@ class Analysis:
         """the representative of everything the library object o contains that analysed code did not put there itself. It is a
         library object of its own (so that what is later stored INTO such a contained object -- font.setGlyphOrder(names) on
         a TTFont taken out of a dict -- does not become an element of the container); its own contents are itself."""
-        if isinstance(o.key, tuple) and o.key and o.key[-1] == "contents":
-            return o
-        k = (o.key + ("contents",)) if isinstance(o.key, tuple) else (o.key, "contents")
-        return self.obj("ext", k, None, o.label + " (contents)")
+        r = self._reps.get(o)
+        if r is None:
+            if isinstance(o.key, tuple) and o.key and o.key[-1] == "contents":
+                r = o
+            else:
+                k = (o.key + ("contents",)) if isinstance(o.key, tuple) else (o.key, "contents")
+                r = self.obj("ext", k, None, o.label + " (contents)")
+            self._reps[o] = r
+        return r
 
     def iter_protocol(self, o):
         out = set(self.F[(o, "dunder:__next__")])
@@ -2689,7 +2711,9 @@ class Analysis:
                 for _, s in args[:1]:
                     self.mutate_through(s, node, f".{name}(pen)")
                 return set()
-            if name in ("get", "__getitem__", "values", "keys"):
+            if name in ("values", "keys"):
+                return self.new_cont(node, self.elements({o}), name)  # a collection OF the values
+            if name in ("get", "__getitem__"):
                 return self.elements({o}) | ({self.NONE} if name == "get" and len(args) < 2 else set()) | {x for _, s_ in args[1:] for x in s_}
             if name == "items":
                 return self.rows(node, [set(), self.elements({o})], "items")
@@ -2785,6 +2809,9 @@ class Analysis:
             return self.new_cont(node, self.elements({o}) | extra, name)
         if name in ("index", "count", "isdisjoint", "issubset", "issuperset", "__contains__", "__len__", "join", "format"):
             return set()
+        t = self.pytype_of(o) if o.kind in ("cont", "inst") else None
+        if t in (list, dict, set, tuple, frozenset) and not hasattr(t, name):
+            return set()  # no such method on a builtin container: AttributeError at run time
         return self.elements({o})
 
     def pair_keys(self, srcs):
@@ -3939,8 +3966,24 @@ class Analysis:
         elif isinstance(t, ast.Name) and positive:
             out.append((t.id, ("none", False)))  # a truthy value is not None
 
+    _binds_cache = {}
+
+    @classmethod
+    def _binds_in(cls, stmts, name):
+        out = False
+        for st in stmts:
+            k = (id(st), name)
+            r = cls._binds_cache.get(k)
+            if r is None or r[0] is not st:
+                r = (st, cls._binds_in1([st], name))
+                cls._binds_cache[k] = r  # (the node is kept alive by the entry, so its id cannot be reused)
+            if r[1]:
+                out = True
+                break
+        return out
+
     @staticmethod
-    def _binds_in(stmts, name):
+    def _binds_in1(stmts, name):
         for st in stmts:
             for n in ast.walk(st):
                 if isinstance(n, ast.Name) and n.id == name and isinstance(n.ctx, (ast.Store, ast.Del)):
@@ -4156,6 +4199,9 @@ class Analysis:
         self.used_kill.clear()
         self.call_edges.clear()
         self._edge_info.clear()
+        self._reps.clear()
+        self._ecache.clear()
+        self.version += 1
         self.snapshots.clear()
         self.changed = True
 
